@@ -46,7 +46,18 @@ TITLE = "Every decoding and encoding route gives the same answer"
 COQ_PROPS = "Props/C13.v"
 DRIVER_NAME = "serde"
 HARNESS = {"bin": "serde"}
+COQ_PROPS_EXTRA = ["Props/C13text.v"]
 THEOREMS = [
+    "TEXT LEVEL (Props/C13text.v, 16 theorems; each route written after its own source: toml::from_str parses and walks the toml_edit "
+    "deserializer itself, from_slice = UTF-8 gate then from_str, FromStr for toml::Value / Table = toml::from_str, from_document(DocumentMut) "
+    "runs into_mut between parsing and walking): C13_text_same_code / C13_text_slice / C13_text_document_mut / C13_into_mut_same_tree / "
+    "C13_text_direct_routes: the six direct routes return the SAME result on every byte string (invalid UTF-8 = error on the byte route); "
+    "C13_text_routes_agree: any two of the eight routes that succeed return equal values; C13_text_parse_verdict: a route answers parse-error "
+    "exactly when the parser refuses the text, no route panics; C13_text_on_serialized_direct / _value_first: on the text the four text "
+    "serializers produce for a well-typed value (hypotheses of C07_text_roundtrip) every route returns that value (value-first routes: when "
+    "the output is tunnel-free); refuted with witnesses replayed on the crates: C13_text_f14_refuted (F14 through text), "
+    "C13_text_same_verdict_refuted (a = [1,2,3] as (i8,i8): direct routes accept, Value-first routes refuse - verdicts differ across the two "
+    "families, successes never do)",
     "level: the TOML value tree; a decoding route = a function of (type, tree the text parses to) (coq/Model/SerdeRoutes.v decode): t e esl edoc eim efs tvd evd = de_value; tval tvdval = to_toml_value then tv_de; ttab = to_toml_table then tv_de",
     "C13_twin_deserializers / C13_decode_routes: for every type without char-keyed maps and EVERY tree, any two routes that succeed return equal values (up to map order); the table route needs a root with distinct keys not starting with the private key",
     "C13_on_serialized / C13_on_serialized_value: every toml_edit-based route returns the value for every type, on the document and on the single-value text; the toml::Value / toml::Table routes too, date-times included, when no table key of the serialized tree spells the private tunnel name (F14).  C13_on_serialized_datetime, C13_value_text_tuple_variant: the former witnesses of the repaired C13-tryinto-datetime-string and C13-valueser-root-tuple-variant, now positive; C13_datetime_is_not_a_string: no route hands the text of a date-time to a String target",
@@ -59,7 +70,7 @@ RULE = ("(type, document) pairs: documents rendered from a random value of the t
 ASSUMPTIONS = [
     "serde_derive / serde's std impls are written into coq/Model/Ser.v, De.v as their functional spec; the same protocol is `dynserde`, checked on every run against real derived types (command `fidelity`)",
     "python-rendered documents are TOML 1.0 by construction (the harness reports `valid=`; an invalid rendering is a generator bug and fails the check)",
-    "which tree a text parses to, and that from_str / from_slice / from_document(DocumentMut | ImDocument) / Deserializer::from_str hand the same tree to toml_edit's deserializer, is below the level of the Coq statements: these routes are told apart on the implementation only (the model gives one answer for t e esl edoc eim efs, and one for tvd evd)",
+    "the text-level theorems (Props/C13text.v) speak about Model/FrontEnds-style route functions of the byte string; the correspondence cases still feed the model the tree the texts were rendered from, and the route functions are compared with the crates through the front-end commands of the core driver (C01/C02 checks); that the model's printed bytes are valid UTF-8 is a hypothesis for the byte routes on serialized text (in Rust the text is a String)",
     "the model reads the tree the texts were rendered from (fourth argument of a `routes` case), not the texts",
     "the Coq universe has no untyped toml::Value leaf (cases with it: oracle only); has_type as in C07",
     "the duplicate-key family (a key repeated in one serialized map) is outside has_type: judged by the oracle and tied to the model, no theorem speaks about it",
